@@ -9,7 +9,7 @@ wt="/tmp/vwt-$prop-$name"
 log="$mdir/verify.log"
 : > "$log"
 git -C /repo worktree remove --force "$wt" >/dev/null 2>&1
-git -C /repo worktree add --detach "$wt" HEAD >/dev/null 2>&1 || { echo "worktree failed" | tee -a "$log"; exit 2; }
+git -C /repo worktree add --detach "$wt" "${SEED_BASE:-HEAD}" >/dev/null 2>&1 || { echo "worktree failed" | tee -a "$log"; exit 2; }
 cleanup() { git -C /repo worktree remove --force "$wt" >/dev/null 2>&1; rm -rf "$wt"; }
 trap cleanup EXIT
 cd "$wt"
